@@ -485,6 +485,7 @@ class Extractor {
             else
                 o["k"] = "global";
             o["ref"] = VD->getType()->isReferenceType();
+            if (VD->getTLSKind() != VarDecl::TLS_None) o["tls"] = true;
             if (auto* P = dyn_cast<ParmVarDecl>(VD))
                 o["idx"] = (int)P->getFunctionScopeIndex();
         } else if (isa<FieldDecl>(D)) {
